@@ -69,7 +69,8 @@ CHECKS = {
  "C17": dict(text=SYS + CTL + "Deaths are injected at every lifecycle point; any controller exception other than the documented 'no active workers' exit, any stuck state and any budget violation is reported with its schedule. "
              "Proofs: SYSTEM level for --dist load (CrashCoupling.v, CrashTheorems.v; with arbitrary undecodable reports too: GarbledCoupling.v, GarbledTheorems.v, no hypothesis but >= 1 worker), ARBITRARY crashes at any moment, replacements, any budget, every schedule: the book coupling invariant extended to dead and replacement workers; "
              "the only exception the controller can end with is the documented 'no active workers' one, which needs a worker that collected a different list; with agreeing collections the controller never raises. "
-             "The same for worksteal (CrashSteal*.v), the scope family (CrashScope*.v) and each (CrashEach*.v) — without a re-queueing plugin where mark_test_pending is not implemented (scope, each). "
+             "The same for worksteal (CrashSteal*.v), the scope family (CrashScope*.v) and each (CrashEach*.v) — without a re-queueing plugin where mark_test_pending is not implemented (scope, each); "
+             "with arbitrary undecodable reports as well for every mode (Garbled*.v): only the documented exception. "
              "For every mode: the restart budget and crash-report theorems (C10, C03) hold for every event sequence incl. events of unknown nodes. Recorded findings (with Coq witnesses where controller-level): internal_error event then exit; written-off worker finishes its queue.", design="5/C17", technique=TECH),
  "C18": dict(text="Model of StatRecorder.check (visit filters, cache bookkeeping, duplicate/nested roots) and of the failure memory, compared with the real classes on a real temp directory with explicit mtimes; "
              "an independent set-difference oracle checks 'changed iff the watched set changed' on every poll. Proved (Proofs/StatRecProofs.v) for every snapshot and ANY root list: a poll reports a change iff the map path->(mtime,size) of watched files differs from the cache "
